@@ -700,7 +700,12 @@ def record_ext_alone(sc):
     events = []
     live = np.random.RandomState(0)     # sc["live_gen"]: ONE generator object serves every event (as the batch generator serves every
     #                                     node of a batch) - it is put into the event's state; the seed follows the state, not the object
-    for k, e in enumerate(sc["events"]):
+    # with a live generator object every event is afterwards repeated with a FRESH generator object in the same state: the seed is a
+    # function of the generator's state, so both must agree (P:seed-deterministic joins them through the state label `gen`)
+    plan = [(e, bool(sc.get("live_gen"))) for e in sc["events"]]
+    if sc.get("live_gen"):
+        plan += [(e, False) for e in sc["events"] if e.get("rs") is not None]
+    for k, (e, use_live) in enumerate(plan):
         tmpl_str, tmpl_log, sep = build_template(e["tmpl"])
         reclog = []
         objs, logs = [], []
@@ -720,7 +725,7 @@ def record_ext_alone(sc):
             gen = "g%d_%d" % (e["rs"]["seed"], e["rs"]["adv"])
             if gen not in streams:
                 streams[gen] = stream_for_key(int(rs.get_state()[1][0]))
-            if sc.get("live_gen"):
+            if use_live:
                 live.set_state(rs.get_state())
                 rs = live
             kwargs["random_state"] = rs
